@@ -1354,7 +1354,7 @@ func (c *FnCtx) evalCompositeLit(env *Env, x *ast.CompositeLit, addr bool) Val {
 			}
 			z := c.zero(t)
 			if addr {
-				a := c.allocate(env.st, fmt.Sprint(c.sizeof(t)))
+				a := c.allocateObj(env.st, t)
 				c.initOpaque(env, a, t)
 				return Val{T: a, Typ: types.NewPointer(t)}
 			}
@@ -1390,7 +1390,7 @@ func (c *FnCtx) evalCompositeLit(env *Env, x *ast.CompositeLit, addr bool) Val {
 		}
 		sv := Val{T: app("mk_"+c.sortOf(t), vals...), Typ: t}
 		if addr {
-			a := c.allocate(env.st, fmt.Sprint(c.sizeof(t)))
+			a := c.allocateObj(env.st, t)
 			c.storeTo(env, a, t, sv.T)
 			return Val{T: a, Typ: types.NewPointer(t)}
 		}
